@@ -5,7 +5,8 @@
 # runs the given checks against it (scratch copy, nothing in /repo is touched).
 P=$1; K=$2; CHECKS=$3; shift 3
 WT=${WTROOT:-/tmp/wt_}$P
-OUT=/verif/seeded/${P}_$K
+KO=${KOUT:-$K}   # file it under this index (later waves: KOUT=3, 4, ...)
+OUT=/verif/seeded/${P}_$KO
 mkdir -p $OUT
 cd $WT || exit 2
 git checkout -q -- . 
@@ -22,7 +23,7 @@ for c in $(echo $CHECKS | tr ',' ' '); do
   CHECK_OUT="$CHECK_OUT
 $R"
 done
-/venv/bin/python - "$P" "$K" "$TESTS_RESULT" "$WITH" "$WITHOUT" "$CHECK_OUT" "$*" <<'PY'
+/venv/bin/python - "$P" "$KO" "$TESTS_RESULT" "$WITH" "$WITHOUT" "$CHECK_OUT" "$*" <<'PY'
 import json, sys
 P, K, tests, w, wo, checks, files = sys.argv[1:8]
 out = f'/verif/seeded/{P}_{K}'
